@@ -592,6 +592,34 @@ func projectedEquivalent(got, want BExpr, sel func(string) bool) (bool, string) 
 	return true, ""
 }
 
+// c02ReadyNames: the reports queued for sending are upload-form reports only — names ending in
+// .json and not starting with "local." (the unfiltered aggregate). Shared with C01.gate.
+func c02ReadyNames(c *Ctx, m *Module, rule string) {
+	r := c.R
+	findWork := m.Func("internal/upload", "uploader.findWork")
+	n := 0
+	for _, in := range instrsOf(findWork) {
+		st, ok := in.(*ssa.Store)
+		if !ok {
+			continue
+		}
+		fa, ok := st.Addr.(*ssa.FieldAddr)
+		if !ok {
+			continue
+		}
+		if _, fld, _ := fieldAddrName(fa); fld != "readyfiles" {
+			continue
+		}
+		n++
+		facts := factsAt(st)
+		notLocal := hasFact(facts, callResultIs("strings.HasPrefix", false, func(a []ssa.Value, _ *ssa.Call) bool { k, ok := constOf(a[1]); return ok && k == "local." }))
+		isJSON := hasFact(facts, callResultIs("strings.HasSuffix", true, func(a []ssa.Value, _ *ssa.Call) bool { k, ok := constOf(a[1]); return ok && k == ".json" }))
+		r.Check(rule, "findWork/ready name filter", m.Pos(st.Pos()), notLocal && isJSON, "a ready report's name must end in .json and must not start with local. (the unfiltered aggregate)")
+	}
+
+	r.Check(rule, "findWork/ready sites enumerated", m.Pos(findWork.Pos()), n >= 1, fmt.Sprintf("%d stores to readyfiles", n))
+}
+
 // ---- rule 4: ready gate ------------------------------------------------------
 func c02ReadyGate(c *Ctx, m *Module) {
 	r := c.R
@@ -629,24 +657,7 @@ func c02ReadyGate(c *Ctx, m *Module) {
 	}
 	r.Check("C02.ready-gate", "findWork/has ready-report sites", m.Pos(findWork.Pos()), n >= 1, "findWork collects left-over reports")
 
-	// the names considered: not prefixed "local." and suffixed ".json"
-	for _, in := range instrsOf(findWork) {
-		st, ok := in.(*ssa.Store)
-		if !ok {
-			continue
-		}
-		fa, ok := st.Addr.(*ssa.FieldAddr)
-		if !ok {
-			continue
-		}
-		if _, fld, _ := fieldAddrName(fa); fld != "readyfiles" {
-			continue
-		}
-		facts := factsAt(st)
-		notLocal := hasFact(facts, callResultIs("strings.HasPrefix", false, func(a []ssa.Value, _ *ssa.Call) bool { k, ok := constOf(a[1]); return ok && k == "local." }))
-		isJSON := hasFact(facts, callResultIs("strings.HasSuffix", true, func(a []ssa.Value, _ *ssa.Call) bool { k, ok := constOf(a[1]); return ok && k == ".json" }))
-		r.Check("C02.ready-gate", "findWork/ready name filter", m.Pos(st.Pos()), notLocal && isJSON, "a ready report's name must end in .json and must not start with local. (the unfiltered aggregate)")
-	}
+	c02ReadyNames(c, m, "C02.ready-gate")
 
 	// uploadReport: future week not sent
 	ur := m.Func("internal/upload", "uploader.uploadReport")
